@@ -2,6 +2,9 @@
    Property theorems only; proofs live in SchedProofs.v (and BuildProofs.v for the scheduler). *)
 From Coq Require Import Permutation.
 From HclV Require Import Base Expr Machine MachineSpec SchedSpec SchedProofs Build BuildSpec Generated BuildProofs.
+From Coq Require Import Permutation.
+From HclV Require OrderSpec OrderProofs DiagOrderSpec DiagOrderProofs.
+From HclV Require Import Build BuildSpec Generated.
 Open Scope string_scope.
 Open Scope N_scope.
 
@@ -93,3 +96,46 @@ Example C01_premises_satisfiable :
       (mkState [("K", mkV 2 (Bits 64))] [(7, 0xAB)] [0; 0; 0; 5; 0; 0; 0; 0; 0; 0; 0; 0; 0; 0; 0; 0] None 0)
     = Ok (s1, t) /\ nth 3 (regs s1) 0 = 0xAE /\ lookup (values s1) "x" = Some (mkV 0xAE (Bits 64)).
 Proof. split; [vm_compute; reflexivity|]. eexists. eexists. vm_compute. repeat split; reflexivity. Qed.
+
+(* ---- "whatever textual order the declarations and assignments appear in" (OrderSpec.v,
+   OrderProofs.v): reordering = a Permutation of the statement list ------------------------------- *)
+Theorem C01_acceptance_does_not_depend_on_statement_order :
+  forall f is_lower is_upper stmts stmts', Permutation stmts stmts' ->
+    ((exists p, build_program f gen_fixed is_lower is_upper stmts = Ok p) <->
+     (exists p', build_program f gen_fixed is_lower is_upper stmts' = Ok p')).
+Proof. exact OrderProofs.acceptance_order_free_holds. Qed.
+Print Assumptions C01_acceptance_does_not_depend_on_statement_order.
+
+(* the compiled programs have the same constants, banks and actions up to order (state-changing
+   actions in the same order), the same defaulted signals and wire kinds *)
+Theorem C01_compiled_program_does_not_depend_on_statement_order :
+  forall f is_lower is_upper, OrderSpec.stmt_program_order_free f is_lower is_upper.
+Proof. exact OrderProofs.program_order_free_holds. Qed.
+Print Assumptions C01_compiled_program_does_not_depend_on_statement_order.
+
+(* after any number of cycles from the initial states, under any output options: the same value of
+   every wire, the same registers, memory, status and cycle count - or the same failure *)
+Theorem C01_simulation_does_not_depend_on_statement_order :
+  forall f is_lower is_upper stmts stmts' p p',
+    Forall wf_stmt stmts -> Permutation stmts stmts' ->
+    build_program f gen_fixed is_lower is_upper stmts = Ok p ->
+    build_program f gen_fixed is_lower is_upper stmts' = Ok p' ->
+    forall n o o', OrderSpec.same_result (OrderSpec.run_cycles f n o p) (OrderSpec.run_cycles f n o' p').
+Proof. exact OrderProofs.simulation_order_free_holds. Qed.
+Print Assumptions C01_simulation_does_not_depend_on_statement_order.
+
+Theorem C01_run_does_not_depend_on_statement_order :
+  forall f is_lower is_upper, OrderSpec.stmt_run_order_free f is_lower is_upper.
+Proof. exact OrderProofs.run_order_free_holds. Qed.
+Print Assumptions C01_run_does_not_depend_on_statement_order.
+
+(* the settlement holds under every hash-iteration order of Program::new, not only the model's
+   insertion order (DiagOrderSpec.build_program_with) *)
+Theorem C01_valid_schedule_under_every_iteration_order :
+  forall f is_lower is_upper o stmts p, DiagOrderSpec.ord_ok o ->
+    DiagOrderSpec.build_program_with f gen_fixed is_lower is_upper o stmts = Ok p ->
+    valid_schedule (known0 p) (p_actions p) = true.
+Proof.
+  intros f il iu. apply (DiagOrderProofs.with_valid_schedule_holds f gen_fixed il iu); vm_compute; reflexivity.
+Qed.
+Print Assumptions C01_valid_schedule_under_every_iteration_order.
